@@ -1,6 +1,8 @@
 /*
  * C05-H1/H2: no memory error, crash or hang for any ex command line.
  * MODE 0: one command line of NB free bytes (1..127) on top of a template prefix, then q!.
+ * MODE 2: all ordered pairs of 46 command lines (addresses out of range with ';', undo, bare s, &, global, deletes to an empty
+ *         buffer, registers, marks, :so/:e with unset alternate file, tags, options), followed by p.
  * MODE 1: the 512-byte limit: command lines of solver-chosen length 505..516 made of a filler of each
  *         kind (addresses, a command name, an argument, a long s pattern, a g command list).
  */
@@ -34,13 +36,38 @@ void harness(void)
 		}
 		vih_str("\n.\n");
 	}
+#elif MODE == 2
+	{
+		/* pairs of command lines: the first may leave an odd state (current line outside the buffer, unset
+		 * alternate file, empty buffer, registers, marks), the second uses it */
+		static const char *cmds[] = {"9;", "0;", "-5;p", "$;+3", "u", "redo", "s/a/b/", "s", "&", "g/a/s//x/", "d", "%d", "1,$d|u", "a\nx\n.", "pu",
+			"y", "ka", "'a", "'ad", "so #", "so", "e #", "e", "b 9", "rs a\nq\n.", "@a", "ra a", "=", "p", ".=", "$", "w", "w o", "cm x", "ft", "se td=3",
+			"ta x", "po", "tn", "%s/^/\\0\\9/", "g/./d", "v/./p", "1m", "j", "x", "wq!"};
+		int a = symx_u8("first"), b = symx_u8("second");
+		symx_assume(a < 46 && b < 46);
+		a = symx_conc(a);
+		b = symx_conc(b);
+		vih_str(cmds[a]);
+		vih_str("\n");
+		vih_str(cmds[b]);
+		vih_str("\np\n");
+	}
 #else
 	{
-		static const char *kinds[] = {"1", "+", "p", "s/a", "g/a/p|", "e x", "'", ";", "/a/", "\\", "|", "\xd8\xa8"};
+		static const char *kinds[] = {"1", "+", "p", "s/a", "g/a/p|", "e x", "'", ";", "/a/", "\\", "|", "\xd8\xa8", "%", "#"};
+		static const char *heads[] = {"make ", "!", "e ", "w ", "r ", "so ", "ta "};
 		int k = symx_u8("kind"), len = symx_u8("len"), n = 0, l;
-		symx_assume(k < 12 && len <= 11);
+		symx_assume(k < 14 && len <= 11);
 		k = symx_conc(k);
 		len = 505 + symx_conc(len);
+		if (k >= 12) {		/* path expansion: % and # stand for a 40-character file name */
+			int h = symx_u8("head");
+			symx_assume(h < 7);
+			h = symx_conc(h);
+			vih_str(heads[h]);
+			n = strlen(heads[h]);
+			len = symx_conc(symx_u8("npct") % 3) ? 505 + len % 8 : 12 + len;	/* a dozen or several hundred expansions */
+		}
 		l = strlen(kinds[k]);
 		while (n + l <= len) {
 			memcpy(env_in + env_in_len, kinds[k], l);
@@ -50,7 +77,12 @@ void harness(void)
 		vih_str("\n");
 	}
 #endif
+#if MODE == 1
+	env_mkfile("a_file_name_of_forty_characters_to_expand", "x\n", 2, 5);
+	vih_run_ex("a_file_name_of_forty_characters_to_expand");
+#else
 	vih_run_ex("f");
+#endif
 	symx_observe("reads", env_in_reads);
 	symx_reach("end");
 }
